@@ -1,5 +1,4 @@
-import SSVerif.Proofs.AlignPop
-import SSVerif.Proofs.AlignIter
+import SSVerif.Proofs.AlignLevel
 import SSVerif.Proofs.AlignStep
 import SSVerif.Generated.SearchConsts
 /-!
@@ -19,55 +18,6 @@ skipped states, every frame inside the activity window `[sf, ef)` of its phone) 
 the driver evaluates on every token stack dumped from the real search.
 -/
 namespace SSVerif.Align
-
-/-! ### one level of `alignment_propagate` -/
-
-theorem splitLens_length : ∀ (lens : List Nat) (l : List Entry), (splitLens lens l).length = lens.length
-  | [], _ => rfl
-  | _ :: ns, l => by simp [splitLens, splitLens_length ns]
-
-theorem zipWith_summarize_keys : ∀ (ps : List Entry) (bs : List (List Entry)), ps.length = bs.length →
-    (List.zipWith summarize ps bs).map keyOf = ps.map keyOf
-  | [], [], _ => rfl
-  | p :: ps, b :: bs, h => by
-    simp only [List.zipWith_cons_cons, List.map_cons]
-    rw [zipWith_summarize_keys ps bs (by simpa using h)]
-    rfl
-  | [], _ :: _, h => by simp at h
-  | _ :: _, [], h => by simp at h
-
-theorem parts_sum : ∀ (ps : List Entry) (bs : List (List Entry)), Parts ps bs → sumScore ps = sumScore bs.flatten
-  | [], [], _ => rfl
-  | p :: ps, b :: bs, h => by
-    obtain ⟨_, h2, _, h4⟩ := h
-    simp only [List.flatten_cons, sumScore_append, sumScore_cons]
-    rw [parts_sum ps bs h4, h2]
-  | [], _ :: _, h => False.elim h
-  | _ :: _, [], h => False.elim h
-
-theorem keys_parent {l1 l2 : List Entry} (h : l1.map keyOf = l2.map keyOf) : l1.map (·.parent) = l2.map (·.parent) := by
-  have := congrArg (List.map (fun t : Nat × Nat × Int × Int × Int => t.1)) h
-  simpa [List.map_map, keyOf, Function.comp_def] using this
-
-theorem keys_id {l1 l2 : List Entry} (h : l1.map keyOf = l2.map keyOf) : l1.map (·.id) = l2.map (·.id) := by
-  have := congrArg (List.map (fun t : Nat × Nat × Int × Int × Int => t.2.2.1)) h
-  simpa [List.map_map, keyOf, Function.comp_def] using this
-
-theorem keys_length {l1 l2 : List Entry} (h : l1.map keyOf = l2.map keyOf) : l1.length = l2.length := by
-  have := congrArg List.length h
-  simpa using this
-
-/-- one loop of `alignment_propagate` on a block-structured child vector that tiles `[a,b)` -/
-theorem level_spec (lens : List Nat) (children parents : List Entry) (wins : List (Int × Int)) (a b : Int)
-    (hpat : children.map (·.parent) = patternFrom 0 lens) (hpos : ∀ n ∈ lens, 0 < n)
-    (hlen : parents.length = lens.length) (hsum : children.length = lens.sum) (hw : wins.length = lens.length)
-    (hc : Contig children a b) (hwin : WithinW children (blockWins lens wins)) :
-    Contig (propLevel children parents) a b ∧ Parts (propLevel children parents) (splitLens lens children) ∧
-      (propLevel children parents).map keyOf = parents.map keyOf ∧ WithinW (propLevel children parents) wins := by
-  rw [propLevel_blocks lens children parents hpat hpos hlen]
-  obtain ⟨h1, h2⟩ := contig_blocks lens children parents a b hpos hsum hlen hc
-  exact ⟨h1, h2, zipWith_summarize_keys _ _ (by rw [splitLens_length]; exact hlen),
-    within_blocks lens children parents wins hlen hw h2 hwin⟩
 
 /-! ### structure of the populated alignment -/
 
@@ -183,23 +133,6 @@ theorem C04_backtrace_partition (D : Dict) (words : List Entry) (tokens : List (
     rw [keys_length k1]; exact pa1
 
 
-theorem keys_child {l1 l2 : List Entry} (h : l1.map keyOf = l2.map keyOf) : l1.map (·.child) = l2.map (·.child) := by
-  have := congrArg (List.map (fun t : Nat × Nat × Int × Int × Int => t.2.1)) h
-  simpa [List.map_map, keyOf, Function.comp_def] using this
-
-theorem childIdx_replicate_from (n : Nat) : ∀ (m b s : Nat),
-    childIdx (b + s * n) (List.replicate m n) = (List.range' s m).map (fun k => b + k * n)
-  | 0, _, _ => rfl
-  | m + 1, b, s => by
-    simp only [List.replicate_succ, childIdx, List.range'_succ, List.map_cons]
-    have e : b + s * n + n = b + (s + 1) * n := by rw [Nat.add_mul]; omega
-    rw [e, childIdx_replicate_from n m b (s + 1)]
-
-theorem childIdx_replicate (n m : Nat) :
-    childIdx 0 (List.replicate m n) = (List.range' 0 m).map (· * n) := by
-  have := childIdx_replicate_from n m 0 0
-  simpa using this
-
 /-- **C04, the children handed out by the iterator API are the blocks.**  In the alignment after the second
 pass, `alignment_iter_children` of word `i` followed by `alignment_iter_next` until the parent changes
 (`childrenOf`) yields exactly block `i` of the phone vector, and likewise the states of phone `p` — so the
@@ -233,15 +166,6 @@ theorem C04_children_are_blocks (D : Dict) (words : List Entry) (tokens : List (
     rw [keys_child kp, p7, ← hlen]
     rw [← childIdx_replicate]
     simpa using this
-
-theorem contig_facts : ∀ (l : List Entry) (a b : Int), Contig l a b → 0 ≤ a →
-    ∀ e ∈ l, 0 ≤ e.start ∧ 0 < e.duration
-  | [], _, _, _, _, e, he => by simp at he
-  | x :: l, a, b, h, ha, e, he => by
-    obtain ⟨h1, h2, h3⟩ := h
-    rcases List.mem_cons.1 he with rfl | he
-    · exact ⟨by omega, h2⟩
-    · exact contig_facts l _ b h3 (by omega) e he
 
 /-- **C04, `boundaries_preserved`.**  If in addition the first-pass words tile `[0,T)` (what
 `decoder_alignment` asserts while it collects them: `seg->sf == prev_ef + 1`, durations `ef - sf + 1 > 0`),
@@ -382,5 +306,16 @@ def exTree (d : Int) : List WNode :=
 
 example : alignOKB exDict.pron 1 (fun _ _ _ => true) [⟨0, 0, 4⟩, ⟨1, 5, 7⟩] 8 (exTree 2) = true := by decide
 example : alignOKB exDict.pron 1 (fun _ _ _ => true) [⟨0, 0, 4⟩, ⟨1, 5, 7⟩] 8 (exTree 1) = false := by decide
+
+
+/-- non-vacuity of the step model and of `wfTokens` on it: two phones with a no-skip matrix, windows `[0,3)` and
+`[3,7)`, seven frames of constant senone scores — the constrained Viterbi produces a token stack that satisfies
+`wfTokens`, ends in the last state, and never renormalises -/
+def exTp : Array Int := #[10, 20, 255, 255,  255, 10, 20, 255,  255, 255, 10, 20]
+
+example :
+    let r := Step.run #[exTp, exTp] #[0, 3] #[3, 7] (List.replicate 7 #[5, 6, 7, 8, 9, 10])
+    wfTokens r.1 (fun k => if k < 3 then (0, 3) else (3, 7)) 7 6 r.2.1 = true ∧ r.2.1 = ⟨5, -183⟩ ∧ r.2.2 = false := by
+  decide
 
 end SSVerif.Align
